@@ -10,12 +10,19 @@
  * A sanitizer abort turns the rest of the history into `CRASH exit=1`, an abort() into `CRASH signal=6`
  * (hcommon.h).
  *
- * Event handlers are interpreters of behaviour tables given on the `bind` line (DESIGN §3 "Callbacks").
+ * Event handlers are interpreters of behaviour tables given on the `bind` line (DESIGN §3 "Callbacks"); so are the
+ * handlers bound on the terminal (`tbind`) and the watches of the toplevel instance (`ilater`, `itimer`, `itimerat`), which
+ * may also register further timers (a<ms>: tickit_watch_timer_at_tv for an instant of the harness's clock) and deferred
+ * calls (l) while they run.
+ *
+ * The output side of the main terminal goes through the real xterm driver: its output function records every chunk of the
+ * current operation, and tbuf / tprint / tgoto / tflush / tcaps / tsetpen / tchpen answer `ok out=<hex>,<hex>… [pen=…]`.
  */
 #define HCOMMON_MAIN
 #include "hcommon.h"
 #include "tickit.h"
 #include "tickit-mockterm.h"
+#include "tickit-termdrv.h"
 #include <sanitizer/asan_interface.h>
 
 #include <fcntl.h>
@@ -87,7 +94,99 @@ static struct pbeh PBEH[MAXB]; static int nPBEH;
 
 static int alive(const void *p) { return p && !__asan_address_is_poisoned(p); }
 
-static void outf(TickitTerm *t, const char *b, size_t n, void *u) { (void)t; (void)b; (void)n; (void)u; }
+/* the main terminal's output function: what the library hands over during the current operation is kept, chunk by chunk,
+ * so that the operations on the output side (tbuf, tprint, tgoto, tflush, tsetpen, tchpen) can show it; every byte handed
+ * over is read here (an instrumented load: a chunk that reaches beyond the memory it lies in is reported where it happens) */
+static unsigned char *outb; static size_t outn, outcap;
+static size_t outcut[4096]; static int noutcut;
+static void outf(TickitTerm *t, const char *b, size_t n, void *u)
+{
+  (void)u;
+  if(!b || t != tt) return;                    /* (NULL, 0) on destroy; further terminals are not recorded */
+  if(outn + n + 1 > outcap) { outcap = (outn + n + 1) * 2; outb = realloc(outb, outcap); }
+  memcpy(outb + outn, b, n);
+  outn += n;
+  if(noutcut < 4096) outcut[noutcut++] = outn;
+}
+static void out_reset(void) { outn = 0; noutcut = 0; }
+static void obs_out(void)
+{
+  obs(" out=");
+  if(!noutcut) { obs("-"); return; }
+  size_t from = 0;
+  for(int k = 0; k < noutcut; k++) {
+    if(k) obs(",");
+    obs_hex(outb + from, outcut[k] - from);
+    from = outcut[k];
+  }
+}
+
+/* pens made for one call of tickit_term_setpen / tickit_term_chpen: `-` or a comma separated list in attribute order, e.g.
+ * fg=200#0a0b0c,bg=-1,b=1,u=2,i=0,rv=1,strike=0,af=3,blink=1,sizepos=2 (the notation of harness/sgr.c) */
+static const TickitPenAttr attr_order[] = {
+  TICKIT_PEN_FG, TICKIT_PEN_BG, TICKIT_PEN_BOLD, TICKIT_PEN_UNDER, TICKIT_PEN_ITALIC, TICKIT_PEN_REVERSE,
+  TICKIT_PEN_STRIKE, TICKIT_PEN_ALTFONT, TICKIT_PEN_BLINK, TICKIT_PEN_SIZEPOS,
+};
+#define N_ATTRS (sizeof attr_order / sizeof attr_order[0])
+
+static void fmt_pen(char *dst, size_t cap, const TickitPen *p)
+{
+  size_t n = 0;
+  dst[0] = 0;
+  for(size_t i = 0; i < N_ATTRS; i++) {
+    TickitPenAttr a = attr_order[i];
+    if(!tickit_pen_has_attr(p, a)) continue;
+    if(n) n += snprintf(dst + n, cap - n, ",");
+    n += snprintf(dst + n, cap - n, "%s=", tickit_penattr_name(a));
+    switch(tickit_penattr_type(a)) {
+      case TICKIT_PENTYPE_BOOL:
+        n += snprintf(dst + n, cap - n, "%d", tickit_pen_get_bool_attr(p, a));
+        break;
+      case TICKIT_PENTYPE_INT:
+        n += snprintf(dst + n, cap - n, "%d", tickit_pen_get_int_attr(p, a));
+        break;
+      case TICKIT_PENTYPE_COLOUR:
+        n += snprintf(dst + n, cap - n, "%d", tickit_pen_get_colour_attr(p, a));
+        if(tickit_pen_has_colour_attr_rgb8(p, a)) {
+          TickitPenRGB8 c = tickit_pen_get_colour_attr_rgb8(p, a);
+          n += snprintf(dst + n, cap - n, "#%02x%02x%02x", c.r, c.g, c.b);
+        }
+        break;
+    }
+  }
+  if(!n) snprintf(dst, cap, "-");
+}
+
+static TickitPen *parse_pen(const char *s)
+{
+  TickitPen *p = tickit_pen_new();
+  if(strcmp(s, "-") == 0) return p;
+  char *copy = strdup(s), *save = NULL;
+  for(char *t = strtok_r(copy, ",", &save); t; t = strtok_r(NULL, ",", &save)) {
+    char *eq = strchr(t, '=');
+    if(!eq) { tickit_pen_unref(p); free(copy); return NULL; }
+    *eq = 0;
+    TickitPenAttr a = tickit_penattr_lookup(t);
+    if((int)a < 1) { tickit_pen_unref(p); free(copy); return NULL; }
+    const char *v = eq + 1;
+    switch(tickit_penattr_type(a)) {
+      case TICKIT_PENTYPE_BOOL:   tickit_pen_set_bool_attr(p, a, atoi(v)); break;
+      case TICKIT_PENTYPE_INT:    tickit_pen_set_int_attr(p, a, atoi(v)); break;
+      case TICKIT_PENTYPE_COLOUR: {
+        tickit_pen_set_colour_attr(p, a, atoi(v));
+        const char *h = strchr(v, '#');
+        if(h) {
+          unsigned r, g, b;
+          if(sscanf(h + 1, "%2x%2x%2x", &r, &g, &b) == 3)
+            tickit_pen_set_colour_attr_rgb8(p, a, (TickitPenRGB8){ .r = r, .g = g, .b = b });
+        }
+        break;
+      }
+    }
+  }
+  free(copy);
+  return p;
+}
 
 /* tickit_window_destroy(3): destroying a window "recursively destroy[s] any child windows": the parent drops the
  * creation reference of every child still linked to it.  An application that knows this gives up one of its
@@ -232,6 +331,37 @@ static int on_pen_event(TickitPen *pen, TickitEventFlags flags, void *info, void
 struct tbeh { int used; int ev; int ret; int id; int nacts; struct act acts[MAXA]; };
 static struct tbeh TBEH[MAXB]; static int nTBEH;
 
+static int heldi(void) { return TK && tk_refs > 0 && alive(TK); }
+static int heldx(int i) { return i >= 0 && i < nX && Xref[i] > 0 && alive(X[i]); }
+
+/* watches of the toplevel instance (tickit_watch_later / tickit_watch_timer_after_msec / _at_tv): behaviour tables again */
+struct wbeh { int used; int timer; int pending; void *watch; int nacts; struct act acts[MAXA]; };
+static struct wbeh WBEH[MAXB]; static int nWBEH;
+static int on_watch(Tickit *t, TickitEventFlags flags, void *info, void *user);
+
+/* an instant of the harness's clock (ms since its start) as the library's clock shows it */
+static struct timeval clock_at(long ms)
+{
+  return (struct timeval){ .tv_sec = 1000000 + ms / 1000, .tv_usec = (ms % 1000) * 1000 };
+}
+
+/* what a handler bound on the terminal or a watch may do besides the window operations: drop / take a reference to the
+ * terminal (t, T), register a timer for an instant of the harness's clock - possibly one that has passed - (a<ms>) or a
+ * deferred call (l); the watch registered that way does nothing when it fires */
+static void top_act(struct act a)
+{
+  if(a.kind == 't') { if(heldt()) { tt_refs--; tickit_term_unref(tt); } }
+  else if(a.kind == 'T') { if(heldt()) { tt_refs++; tickit_term_ref(tt); } }
+  else if(a.kind == 'a' || a.kind == 'l') {
+    if(!heldi() || nWBEH >= MAXB) return;
+    struct wbeh *b = &WBEH[nWBEH++];
+    b->used = 1; b->timer = a.kind == 'a'; b->pending = 1; b->nacts = 0;
+    if(b->timer) { struct timeval at = clock_at(a.arg); b->watch = tickit_watch_timer_at_tv(TK, &at, 0, on_watch, b); }
+    else b->watch = tickit_watch_later(TK, 0, on_watch, b);
+  }
+  else simple_op(a.kind, a.arg, NULL);
+}
+
 static int on_term_event(TickitTerm *term, TickitEventFlags flags, void *info, void *user)
 {
   (void)term;
@@ -243,20 +373,9 @@ static int on_term_event(TickitTerm *term, TickitEventFlags flags, void *info, v
   int ret = b->ret, n = b->nacts;
   struct act acts[MAXA];
   memcpy(acts, b->acts, sizeof acts);
-  for(int i = 0; i < n; i++) {
-    if(acts[i].kind == 't') { if(heldt()) { tt_refs--; tickit_term_unref(tt); } }
-    else if(acts[i].kind == 'T') { if(heldt()) { tt_refs++; tickit_term_ref(tt); } }
-    else simple_op(acts[i].kind, acts[i].arg, NULL);
-  }
+  for(int i = 0; i < n; i++) top_act(acts[i]);
   return ret;
 }
-
-static int heldi(void) { return TK && tk_refs > 0 && alive(TK); }
-static int heldx(int i) { return i >= 0 && i < nX && Xref[i] > 0 && alive(X[i]); }
-
-/* watches of the toplevel instance (tickit_watch_later / tickit_watch_timer_after_msec): behaviour tables again */
-struct wbeh { int used; int timer; int pending; void *watch; int nacts; struct act acts[MAXA]; };
-static struct wbeh WBEH[MAXB]; static int nWBEH;
 
 static int on_watch(Tickit *t, TickitEventFlags flags, void *info, void *user)
 {
@@ -268,11 +387,7 @@ static int on_watch(Tickit *t, TickitEventFlags flags, void *info, void *user)
   int n = b->nacts;
   struct act acts[MAXA];
   memcpy(acts, b->acts, sizeof acts);
-  for(int i = 0; i < n; i++) {
-    if(acts[i].kind == 't') { if(heldt()) { tt_refs--; tickit_term_unref(tt); } }
-    else if(acts[i].kind == 'T') { if(heldt()) { tt_refs++; tickit_term_ref(tt); } }
-    else simple_op(acts[i].kind, acts[i].arg, NULL);
-  }
+  for(int i = 0; i < n; i++) top_act(acts[i]);
   return 0;
 }
 
@@ -384,6 +499,7 @@ static void engine_op(int argc, char **argv)
 {
   const char *op = argv[0];
 #define A(k) (argc > (k) ? atoi(argv[k]) : 0)
+  out_reset();
   if(strcmp(op, "newtop") == 0) {
     int lines = argc > 1 ? A(1) : 10, cols = argc > 2 ? A(2) : 20;
     if(pipe(in_fd) != 0) { obs("bad-op"); return; }
@@ -616,6 +732,46 @@ static void engine_op(int argc, char **argv)
     int r = tickit_term_input_check_timeout_msec(tt);
     obs("ret=%d", r); dump(); return;
   }
+  /* ---- the output side of the main terminal, through the real xterm driver: the output buffer (installed, grown, shrunk,
+   * removed with output pending), printing, cursor movement, flushing; the capabilities the driver takes from the terminal's
+   * DECRQSS reply; tickit_term_setpen / tickit_term_chpen with pens that carry every attribute */
+  if((strcmp(op, "tbuf") == 0 && argc == 2) || (strcmp(op, "tprint") == 0 && argc == 2) || (strcmp(op, "tgoto") == 0 && argc == 3) ||
+     (strcmp(op, "tflush") == 0 && argc == 1)) {
+    if(is_mock || !heldt()) { obs("skip"); dump(); return; }
+    if(op[1] == 'b') tickit_term_set_output_buffer(tt, (size_t)atol(argv[1]));
+    else if(op[1] == 'p') {
+      unsigned char *bytes; long n = hex_decode(argv[1], &bytes);
+      if(n < 0) { obs("bad-op"); return; }
+      tickit_term_printn(tt, (char *)bytes, n);
+      free(bytes);
+    }
+    else if(op[1] == 'g') tickit_term_goto(tt, A(1), A(2));
+    else tickit_term_flush(tt);
+    obs("ok"); obs_out(); dump(); return;
+  }
+  if(strcmp(op, "tcaps") == 0 && argc == 4) {
+    if(is_mock || !heldt()) { obs("skip"); dump(); return; }
+    int rgb8 = A(1), colon = A(2), via_ctl = strcmp(argv[3], "ctl") == 0;
+    char reply[64];
+    snprintf(reply, sizeof reply, (rgb8 && !via_ctl) ? "\033P1$r38%c2%c0%c1%c2m\033\\" : "\033P1$r38%c5%c255m\033\\",
+        colon ? ':' : ';', colon ? ':' : ';', colon ? ':' : ';', colon ? ':' : ';');
+    tickit_term_input_push_bytes(tt, reply, strlen(reply));
+    if(via_ctl) tickit_term_setctl_int(tt, tickit_termctl_lookup("xterm.cap_rgb8"), rgb8);
+    int v_rgb8 = -1, v_colon = -1;
+    tickit_term_getctl_int(tt, tickit_termctl_lookup("xterm.cap_rgb8"), &v_rgb8);
+    tickit_term_getctl_int(tt, tickit_termctl_lookup("xterm.cap_csi_sub_colon"), &v_colon);
+    obs("ok rgb8=%d colon=%d", v_rgb8, v_colon); dump(); return;
+  }
+  if((strcmp(op, "tsetpen") == 0 || strcmp(op, "tchpen") == 0) && argc == 2) {
+    if(is_mock || !heldt()) { obs("skip"); dump(); return; }
+    TickitPen *pen = parse_pen(argv[1]);
+    if(!pen) { obs("bad-op"); return; }
+    if(op[1] == 's') tickit_term_setpen(tt, pen); else tickit_term_chpen(tt, pen);
+    tickit_pen_unref(pen);
+    char buf[512];
+    fmt_pen(buf, sizeof buf, tickit_termdrv_current_pen(tickit_term_get_driver(tt)));
+    obs("ok"); obs_out(); obs(" pen=%s", buf); dump(); return;
+  }
   /* ---- SIGWINCH observers: the main terminal (`tobs`) and the further ones (`xnew`, `xobs`, `xref`, `xunref`), and
    * the signal itself (`winch`).  A walk of the observer list that never ends is cut short by the alarm (0.3 s). */
   if(strcmp(op, "xnew") == 0) {
@@ -666,7 +822,7 @@ static void engine_op(int argc, char **argv)
     if(!heldi()) { obs("skip"); dump(); return; }
     tk_refs--; tickit_unref(TK); obs("ok"); dump(); return;
   }
-  if((strcmp(op, "ilater") == 0 && argc >= 1) || (strcmp(op, "itimer") == 0 && argc >= 2)) {
+  if((strcmp(op, "ilater") == 0 && argc >= 1) || ((strcmp(op, "itimer") == 0 || strcmp(op, "itimerat") == 0) && argc >= 2)) {
     if(!heldi() || nWBEH >= MAXB) { obs("skip"); dump(); return; }
     struct wbeh *b = &WBEH[nWBEH++];
     b->used = 1; b->timer = op[1] == 't'; b->pending = 1; b->nacts = 0;
@@ -675,7 +831,8 @@ static void engine_op(int argc, char **argv)
       b->acts[b->nacts].arg = atoi(argv[k] + 1);
       b->nacts++;
     }
-    if(b->timer) b->watch = tickit_watch_timer_after_msec(TK, A(1), 0, on_watch, b);
+    if(b->timer && op[6] == 'a') { struct timeval at = clock_at(A(1)); b->watch = tickit_watch_timer_at_tv(TK, &at, 0, on_watch, b); }
+    else if(b->timer) b->watch = tickit_watch_timer_after_msec(TK, A(1), 0, on_watch, b);
     else b->watch = tickit_watch_later(TK, 0, on_watch, b);
     obs("ok"); dump(); return;
   }
